@@ -126,6 +126,9 @@ func (w *World) findProcRolesUncached() *procRoles {
 				rn[rec.Name()] = rn[host.Name()] + "$recover"
 			}
 		}
+		if pr.restartFn != nil {
+			rn[pr.restartFn.Name()+"[not-at-budget]"] = "restart[not-at-budget]"
+		}
 		pr.lta.roleName = rn
 	}
 	return pr
@@ -305,7 +308,7 @@ func checkC05(w *World, r *Report) {
 		return
 	}
 	pr.lta.export(r, "C05.R1", []string{"panic-escapes"}, "a panic in Receive never leaves the actor")
-	pr.lta.export(r, "C05.R2", []string{"incarnation-replaced-without-Stopped", "Initialized-out-of-order", "Started-out-of-order", "user-message-before-Started", "inbox-started-after-cleanup", "restart-buffer-dropped"}, "restart order")
+	pr.lta.export(r, "C05.R2", []string{"incarnation-replaced-without-Stopped", "Initialized-out-of-order", "Started-out-of-order", "user-message-before-Started", "inbox-started-after-cleanup", "restart-buffer-dropped", "unclassified-delivery", "chain-does-not-end-in-the-receiver"}, "restart order; every delivery goes to the current incarnation's receiver")
 
 	// R2: both recover handlers exist and hand the panic value to the restart function, synchronously
 	evRestart := EvCall("restart", pr.restartFn)
@@ -772,8 +775,13 @@ func checkC06(w *World, r *Report) {
 	budgetPath := ">" + pr.restartFn.Name() + ">" + pr.stopFn.Name()
 	pr.lta.exportIf(r, "C06.R4", []string{"panic-escapes", "Stopped-twice", "terminated-without-Stopped", "inbox-started-after-cleanup", "delivery-after-Stopped"},
 		"clean termination at the restart budget", func(f lfinding) bool {
-			return strings.Contains(f.Stack, budgetPath) || f.Kind == "inbox-started-after-cleanup"
+			return strings.Contains(f.Stack, budgetPath) || f.Kind == "inbox-started-after-cleanup" || f.Kind == "delivery-after-Stopped"
 		})
+	// R5: stopping the children of a terminated actor must come back even when a child is already gone
+	r.Rule("C06.R5", "Stop/Poison of a PID that is not registered cancels the returned context at once (C07.R1): the stop function's wait for its children cannot hang on a child that is already gone", 2)
+	importRules(w, r, checkC07, "C07", "C06.R5", func(o *Obligation) bool {
+		return o.Rule == "C07.R1" && (strings.Contains(o.Key, "unknown-pid") || strings.Contains(o.Key, "known-pid"))
+	})
 }
 
 // guardDesc describes the branch facts guarding node n (position free), to key sites of the same callee.
@@ -1045,6 +1053,14 @@ func checkC07(w *World, r *Report) {
 	}
 	// R2
 	pr.lta.export(r, "C07.R2", []string{"cancel-before-stopped", "restart-buffer-dropped"},"the stop context is cancelled only after the inbox stopped, the actor was unregistered and handled Stopped")
+	// "every message accepted before the Poison is handled": the queue they wait in and the replay after a crash
+	r.Rule("C07.R8", "messages queued before a Poison reach the actor: ring transfers are sound (C14.R2-R5) and the crash buffer is rebuilt from the cursor on every path and replayed first (C05.R2/R3)", 8)
+	importRules(w, r, checkC14, "C14", "C07.R8", func(o *Obligation) bool {
+		return o.Rule == "C14.R2" || o.Rule == "C14.R3" || o.Rule == "C14.R4" || o.Rule == "C14.R5"
+	})
+	importRules(w, r, checkC05, "C05", "C07.R8", func(o *Obligation) bool {
+		return o.Rule == "C05.R3" && strings.Contains(o.Key, "buffer-from-cursor") || o.Rule == "C05.R2" && (strings.Contains(o.Key, "replay-before-inbox") || strings.Contains(o.Key, "clears-replayed-buffer"))
+	})
 	{
 		g := w.FGI(pr.stopFn)
 		var cancelP *ssa.Parameter
